@@ -734,6 +734,16 @@ func c18Pool() [][]byte {
 		add(tg + "=10=")
 	}
 	add("58="+strings.Repeat("x", 4093)+"10=abc", "11=after")
+	// look-alikes of the other framing fields: the start of a message, BodyLength, MsgType, MsgSeqNum
+	// as text inside a value, and as the tail of a longer tag whose value continues like theirs
+	for _, tv := range [][2]string{{"8", "FIX.4.4"}, {"8", "FIX"}, {"9", "61"}, {"35", "A"}, {"35", "D"}, {"34", "7"}} {
+		t, v := tv[0], tv[1]
+		add("58=" + t + "=" + v)
+		add("58=see "+t+"="+v+" there", "59=tail")
+		add("5"+t+"="+v+" gateway restarts", "59=tail") // e.g. 58=FIX gateway restarts: the bytes "8=FIX" with no field starting there
+		add("44" + t + "=" + v)
+		add("11"+t+"="+v, "58="+t+"="+v)
+	}
 	return out
 }
 
